@@ -938,6 +938,7 @@ func (w *world) monitorRequests() {
 	lastEv := w.events.Load()
 	lastChange := time.Now()
 	noted5 := false
+	var droppedSince time.Time
 	for {
 		open := 0
 		for _, q := range w.reqs {
@@ -982,13 +983,28 @@ func (w *world) monitorRequests() {
 		}
 		if ev := w.events.Load(); ev != lastEv {
 			lastEv, lastChange, noted5 = ev, time.Now(), false
+			droppedSince = time.Time{}
 		}
 		idle := time.Since(lastChange)
+		// the "nobody is asked any more" state must itself have lasted
+		// droppedStable (a block that finally arrives empties the want-list a
+		// moment before it is handed to the request)
+		if w.missingAllDropped() {
+			if droppedSince.IsZero() {
+				droppedSince = time.Now()
+			}
+		} else {
+			droppedSince = time.Time{}
+		}
+		droppedFor := time.Duration(0)
+		if !droppedSince.IsZero() {
+			droppedFor = time.Since(droppedSince)
+		}
 		if idle > 5*time.Second && !noted5 {
 			noted5 = true
 			w.k.C.Count("request_stalls_over_5s", 1)
 		}
-		if idle > quickGiveUp && idle <= deliverStable && w.k.C.Quick() && !w.missingAllDropped() {
+		if idle > quickGiveUp && idle <= deliverStable && w.k.C.Quick() && droppedSince.IsZero() {
 			// still asking peers; the pending retry timers outlast the quick budget
 			w.k.C.Inconclusive(1)
 			w.k.C.Count("stalled_requests_still_wanted_inconclusive", 1)
@@ -997,7 +1013,7 @@ func (w *world) monitorRequests() {
 				q.doCancel(w, "harness:inconclusive-stall")
 			}
 			lastChange = time.Now()
-		} else if idle > deliverStable || (idle > droppedStable && w.missingAllDropped()) {
+		} else if idle > deliverStable || (idle > droppedStable && droppedFor >= droppedStable) {
 			for _, q := range w.reqs {
 				if st := q.snap(); !st.closed && !st.cancelled {
 					w.reportUndelivered(q, fmt.Sprintf("request still open, no delivery/close/cancel anywhere for %s", idle.Round(time.Second)))
